@@ -158,13 +158,34 @@ def make_input(rng, name, fmt="text", times=None, leadtimes=None, locs=None, has
                 if others:
                     c["o"] = {n: maybe(val()) for n in others}
                 inp["cells"][k] = c
+    if fmt == "text":
+        prune_dims(inp)
     return inp
+
+
+def prune_dims(inp):
+    """A text file only knows the coordinates that occur in some row."""
+    if not inp["cells"]:
+        t, l, loc = inp["times"][0], inp["leadtimes"][0], inp["locs"][0]
+        c = {}
+        for f in inp["has"]:
+            c[f] = None
+        inp["cells"][ck(t, l, loc[0])] = c
+    ts, ls, ss = set(), set(), set()
+    for k in inp["cells"]:
+        a, b, c = k.split("|")
+        ts.add(a)
+        ls.add(b)
+        ss.add(c)
+    inp["times"] = [t for t in inp["times"] if str(int(t)) in ts]
+    inp["leadtimes"] = [l for l in inp["leadtimes"] if fnum(l) in ls]
+    inp["locs"] = [x for x in inp["locs"] if fnum(x[0]) in ss]
 
 
 def make_dataset(rng, n_inputs=None, fmt=None, clim=False, prob=False, ens=False, pit=False, others=(),
                  miss=None, sparse=None, max_t=5, max_l=4, max_s=4, some_without_obs=False,
                  same_dims=False, integerish=False, vrange=(-10, 30), single=None, hours=None,
-                 leadtime_pool=None, thresholds=None, quantiles=None):
+                 leadtime_pool=None, thresholds=None, quantiles=None, members=None):
     """A family of inputs with mutually different coverage that share the same observations."""
     if n_inputs is None:
         n_inputs = rng.choice([1, 2, 2, 3, 4])
@@ -213,7 +234,7 @@ def make_dataset(rng, n_inputs=None, fmt=None, clim=False, prob=False, ens=False
         name = ("clim" if i >= n_inputs else "in%d" % i) + (".txt" if f == "text" else ".nc")
         inp = make_input(rng, name, f, ts, ls, ss, has=has,
                          thresholds=thresholds, quantiles=quantiles,
-                         members=(rng.randint(1, 6) if ens else 0), others=others, miss=m, sparse=sp,
+                         members=((members if members is not None else rng.randint(1, 6)) if ens else 0), others=others, miss=m, sparse=sp,
                          truth=truth, vrange=vrange, integerish=integerish)
         inputs.append(inp)
     ds = {"inputs": inputs[:n_inputs], "clim": inputs[n_inputs] if clim else None}
@@ -406,7 +427,8 @@ def write_nc(inp, path, rng=None):
         st.setdefault("order", {"time": list(range(len(inp["times"]))), "leadtime": list(range(len(inp["leadtimes"]))),
                                 "location": list(range(len(inp["locs"])))})
         st.setdefault("vars", {"location": True, "lat": True, "lon": True, "altitude": True})
-        st.setdefault("time_type", "i4")
+        fits = max(inp["times"]) < 2 ** 31 - 1
+        st.setdefault("time_type", "i4" if (fits and r.random() < 0.5) else "f8")
         inp["style"] = st
     encs = st["enc"]
     ot, ol, os_ = st["order"]["time"], st["order"]["leadtime"], st["order"]["location"]
@@ -419,7 +441,7 @@ def write_nc(inp, path, rng=None):
         f.createDimension("time", None)
         f.createDimension("leadtime", L)
         f.createDimension("location", S)
-        vt = f.createVariable("time", st.get("time_type", "i4"), ("time",))
+        vt = f.createVariable("time", st.get("time_type", "f8"), ("time",))
         vl = f.createVariable("leadtime", "f4", ("leadtime",))
         vt[:] = np.array(times)
         vl[:] = np.array(leads, "f4")
